@@ -1,6 +1,7 @@
 (** C15 — requests and responses cross the proxy with only the configured changes. *)
 From Coq Require Import List Arith Bool NArith ZArith.
 From Pike Require Import Base.Bytes Model.MaxAge Model.Resp Model.Proxy Proofs.ProxyProofs Model.Rewrite Proofs.RewriteProofs.
+From Pike Require Import Model.Responder Proofs.ResponderProofs.
 Import ListNotations.
 
 Section C15.
@@ -156,3 +157,30 @@ Example C15_rewrite_nonvacuous :
   | None => False
   end.
 Proof. vm_compute. reflexivity. Qed.
+
+(** ** the responder (server/responder.go): what it adds to the filled response *)
+
+(** every header other than Age and X-Status reaches the client exactly as filled *)
+Theorem C15_responder_keeps_other_headers : forall filled age label k,
+  beqb k_age k = false -> beqb k_x_status k = false ->
+  hvalues k (responder_headers filled age label) = hvalues k filled.
+Proof. exact responder_keeps_other_headers. Qed.
+Print Assumptions C15_responder_keeps_other_headers.
+
+(** when pike measured no age (fetched, passed, stored this second) the
+    origin's own Age header, if any, reaches the client untouched *)
+Theorem C15_responder_keeps_origin_age : forall filled label,
+  hvalues k_age (responder_headers filled None label) = hvalues k_age filled.
+Proof. exact responder_keeps_origin_age. Qed.
+Print Assumptions C15_responder_keeps_origin_age.
+
+(** when pike measured an age, that is the one Age value the client sees *)
+Theorem C15_responder_sets_measured_age : forall filled a label,
+  hvalues k_age (responder_headers filled (Some a) label) = [a].
+Proof. exact responder_sets_measured_age. Qed.
+Print Assumptions C15_responder_sets_measured_age.
+
+Theorem C15_responder_sets_status : forall filled age label,
+  hvalues k_x_status (responder_headers filled age label) = [label].
+Proof. exact responder_sets_status. Qed.
+Print Assumptions C15_responder_sets_status.
